@@ -6,6 +6,8 @@ import ast
 
 import z3
 
+from .values import tid
+
 from . import spec
 from .values import (BoundMethod, Builtin, ClassM, ClassV, EnumMember, FuncV,
                      GenV, IterV, LibModule, ModuleV, Obj, Opaque,
@@ -407,7 +409,7 @@ class Library(object):
             raise OutsideSubset('strftime symbolic format')
         ctx = self.I.ctx
         r = spec.strftime_f(z3.StringVal(fmt), d.us)
-        key = ('strftime', fmt, d.us.get_id())
+        key = ('strftime', fmt, tid(d.us))
         if key not in ctx.notes:
             ctx.notes[key] = True
             ctx.used_axioms.add('datetime.strftime/strptime axioms')
@@ -498,7 +500,7 @@ class Library(object):
         t = z3str(s)
         ctx.used_axioms.add('str.encode(utf-8): identity on ASCII; '
                             'UnicodeEncodeError iff a surrogate is present')
-        enc_ok = z3.Bool('utf8_encodable(%d)' % t.get_id())
+        enc_ok = z3.Bool('utf8_encodable(%d)' % tid(t))
         ctx.assume(z3.Implies(z3.InRe(t, spec.ASCII_RE), enc_ok))
         if not ctx.branch(enc_ok, 'utf8-encodable'):
             raise PyExc(self.make_exc('UnicodeEncodeError', 'surrogates'))
@@ -596,7 +598,7 @@ class Library(object):
                     ctx.used_axioms.add('str(int) for a non-negative int: an '
                                         'uninterpreted non-empty digit string')
                     spec.mark_digits(ctx, r)
-                    key = ('digits', r.get_id())
+                    key = ('digits', tid(r))
                     if key not in ctx.notes:
                         ctx.notes[key] = True
                         ctx.assume(z3.InRe(r, z3.Plus(z3.Range('0', '9'))))
@@ -1045,6 +1047,14 @@ class Library(object):
         if _is_str(o):
             t = z3str(o)
             n = z3.Length(t)
+            if hi is None and lo is not None and is_sym(lo):
+                # structural: s[len(prefix):] where s = prefix ++ rest
+                ctx = self.I.ctx
+                ps = spec.cpieces(ctx, t)
+                for k in range(1, len(ps) + 1):
+                    pre = spec.cat(ps[:k])
+                    if ctx.entails(z3int(lo) == z3.Length(pre)):
+                        return mk(spec.cat(ps[k:]))
 
             def norm(v, default):
                 if v is None:
@@ -1421,7 +1431,7 @@ class Library(object):
         ctx.used_axioms.add(
             'urllib.parse.quote: enc(utf8(s)); output over ALWAYS_SAFE+safe+%; '
             'UnicodeEncodeError iff s has a lone surrogate')
-        ok = z3.Bool('utf8_encodable(%d)' % t.get_id())
+        ok = z3.Bool('utf8_encodable(%d)' % tid(t))
         ctx.assume(z3.Implies(z3.InRe(t, spec.ASCII_RE), ok))
         if not ctx.branch(ok, 'quote-encodable'):
             raise PyExc(self.make_exc('UnicodeEncodeError', 'surrogates'))
